@@ -51,7 +51,10 @@ def pair_lines(rng, typ, n, nf, form, kind):
                 B.add_reflect(port, code, abbreviated=ab)
         for i in range(1, n + 1):
             for j in range(i + 1, n + 1):
-                B.add_through(i, j, abbreviated='both')
+                # either port order, abbreviated in rows, columns or both (whatever the type's shape rules accept)
+                p1, p2 = (i, j) if rng.random() < 0.5 else (j, i)
+                modes = [m for m in ('both', 'rows', 'cols') if B.abbrev_sel([p1, p2], m) is not None]
+                B.add_through(p1, p2, as_kind=rng.choice(['through', 'line', 'mapped']), abbreviated=rng.choice(modes) if modes else 'full')
     elif kind == 'order':
         A.solt()
         B.solt()
@@ -198,7 +201,7 @@ def run(chk):
     for _ in range(reps):
         for kind in KINDS:
             for typ in calsim.TYPES:
-                for n in ([1, 2] if quick else [1, 2, 3, 4]):
+                for n in (([1, 2, 3] if kind in ('abbreviated', 'through_forms', 'renumber') else [1, 2]) if quick else [1, 2, 3, 4]):
                     if quick and typ in ('T16', 'U16') and n > 2:
                         continue
                     form = rng.choice(['m', 'ab']) if kind != 'ab_scaling' else 'ab'
@@ -215,7 +218,7 @@ def run(chk):
                 break
             pos += len(c[4])
         return
-    chk.rule = 'metamorphic pairs (%s) on every type, dimension 1..%d, m and a/b; same E-network and device on both sides' % (', '.join(KINDS), 2 if quick else 4)
+    chk.rule = 'metamorphic pairs (%s) on every type, dimension 1..%d, m and a/b; same E-network and device on both sides' % (', '.join(KINDS), 3 if quick else 4)
     pos = 0
     for (kind, typ, n, form, lines, ia, ib, dut, dutB, nn) in cases:
         o = out[pos:pos + len(lines)]
